@@ -20,6 +20,7 @@ var checks = map[string]func(*ev.Ctx){
 	"C04": props.C04,
 	"C05": props.C05,
 	"C06": props.C06,
+	"C07": props.C07,
 	"C08": props.C08,
 	"C09": props.C09,
 	"C10": props.C10,
